@@ -343,34 +343,10 @@ impl Blockchain {
                 {
                     info!("blocks received out-of-order issue. handling edge case...");
 
-                    let disconnected_block_id = self.get_latest_block_id();
-                    debug!("disconnected id : {:?}", disconnected_block_id);
-                    debug!(
-                        "disconnecting blocks from : {:?} to : {:?}",
-                        block_id + 1,
-                        disconnected_block_id
-                    );
-
-                    for i in block_id + 1..=disconnected_block_id {
-                        if let Some(disconnected_block_hash) =
-                            self.blockring.get_longest_chain_block_hash_at_block_id(i)
-                        {
-                            if disconnected_block_hash != [0; 32] {
-                                self.blockring.on_chain_reorganization(
-                                    i,
-                                    disconnected_block_hash,
-                                    false,
-                                );
-                                trace!("checking block id : {:?}", i);
-                                let disconnected_block =
-                                    self.get_mut_block(&disconnected_block_hash);
-                                if let Some(disconnected_block) = disconnected_block {
-                                    trace!("in longest chain set to false");
-                                    disconnected_block.in_longest_chain = false;
-                                }
-                            }
-                        }
-                    }
+                    // the block has no parent we know of, so it cannot replace anything on our
+                    // longest chain by itself : our own blocks stay connected. if it is part of a
+                    // competing chain, that chain takes over through the usual comparison once
+                    // the blocks that connect it have arrived.
 
                     // new_chain.clear();
                     // new_chain.push(block_hash);
